@@ -19,6 +19,8 @@ ASSUMPTIONS = ['"inside" is the literal r_i <= sigma with sigma the nominal cont
                'independent of the contact-tolerance question judged by C10',
                'unflagged PY/HNC pairs count as hard-core only when high_value/kT > 745 (exp underflows to exactly 0), which the default '
                'high_value=1e6 guarantees for every generated kT',
+               'for unflagged HNC the mechanism is exp(gamma-u) = 0, i.e. u - gamma > 745: grid points with gamma >= high_value/kT - 750 (reachable only '
+               'with kT ~ 1e3 and |gamma| ~ 1e3 together) are not judged',
                'MSA/MS are generated with the flag only (documented not to work on divergent potentials without it)']
 EPS = np.finfo(float).eps
 HARD_POT = ('HardSphere', 'HardCoreLennardJones', 'Exponential')
@@ -134,6 +136,11 @@ class Evaluation(Sub):
             else:
                 rr, gin, c = captured[kk]
             ins = rr <= sigma
+            if spec['closure'][kk][0] == 'HNC' and not spec['closure'][kk][1]:
+                # unflagged HNC excludes through exp(gamma - u) underflowing: that needs u - gamma > 745, not just u > 745
+                # (only reachable here by combining kT ~ 1000 with |gamma| ~ 1000; u = high_value/kT inside the core)
+                u_core = float(spec['potential'][kk][1].get('high_value', 1e6)) / spec['kT']
+                ins = ins & (gin < u_core - 750.0)
             npts = max(npts, int(np.count_nonzero(ins)))
             if not np.any(ins):
                 continue
